@@ -26,6 +26,7 @@ UNITS = {
     'checked_rem': {'sources': ('core', 'fpdec'), 'modes': ('F', 'D'), 'module': 'rem', 'builder': 'build_checked'},
     'dec_macro': {'sources': ('core', 'fpdec', 'macros'), 'modes': ('F', 'D')},
     'quantize': {'sources': ('core', 'fpdec'), 'modes': ('F', 'D')},
+    'wide': {'sources': ('core',), 'modes': ('F', 'D')},
     'cmp_rkyv': {'sources': ('core', 'fpdec'), 'features': ('rkyv',), 'modes': ('F', 'D'), 'module': 'cmp', 'builder': 'build_rkyv'},
     'cmp': {'sources': ('core', 'fpdec'), 'modes': ('F', 'D')},
     'checked_add_sub': {'sources': ('core', 'fpdec'), 'modes': ('F', 'D'), 'module': 'add_sub', 'builder': 'build_checked'},
@@ -81,34 +82,34 @@ PROPS = {
                         'feature rkyv: archiving followed by deserialising being the identity is NOT decided: the derive-generated Archive/Serialize/Deserialize impls (and rkyv itself) are a trusted dependency; the manual raw-pointer impls for rkyv+packed are not under contract'],
     },
     'C02': {
-        'units': ['core_kernel', 'mul', 'checked_mul'],
+        'units': ['core_kernel', 'wide', 'mul', 'checked_mul'],
         'title': 'Multiplication is exact up to 18 digits, else correctly rounded',
         'design_ref': 'DESIGN.md section 7 (C02)',
         'assumptions': [
             'R5: thread default rounding mode read once per call (uninterpreted function of the thread state)',
-            'the 256-bit path i128_mul_div_ten_pow_rounded enters with its interface contract (units/wide_iface.py); its body is the subject of C16',
+            'the 256-bit path i128_mul_div_ten_pow_rounded enters the mul units as a stub with the contract proved on its body in unit wide (part of this check)',
             'representable = coefficient within Decimal::MIN..=Decimal::MAX; at coefficient -2^127 (inside i128, outside that range) both panic and return are accepted',
         ],
     },
     'C03': {
-        'units': ['core_kernel', 'div_kernel', 'div', 'checked_div'],
+        'units': ['core_kernel', 'wide', 'div_kernel', 'div', 'checked_div'],
         'title': 'Division yields the quotient correctly rounded to 18 fractional digits',
         'design_ref': 'DESIGN.md section 7 (C03)',
         'assumptions': [
             'R5: thread default rounding mode read once per call (uninterpreted function of the thread state)',
-            'the 256-bit path i128_shifted_div_rounded enters with its interface contract (units/wide_iface.py); its body is the subject of C16',
+            'the 256-bit path i128_shifted_div_rounded enters the div units as a stub with the contract proved on its body in unit wide (part of this check)',
             'representable = coefficient within Decimal::MIN..=Decimal::MAX; at coefficient -2^127 both panic and return are accepted',
         ],
     },
     'C04': {
-        'units': ['core_kernel', 'div_kernel', 'div_rounded', 'mul', 'quantize'],
+        'units': ['core_kernel', 'wide', 'div_kernel', 'div_rounded', 'mul', 'quantize'],
         'title': 'mul_rounded, div_rounded and quantize round the exact result once, per mode',
         'design_ref': 'DESIGN.md section 7 (C04)',
         'level': 'other',
         'level_text': 'Same deductive machinery as the proof-level checks (Verus on contracts woven into the real code, F-run and D-run), but the property does NOT hold on this tree for one input class that cannot be repaired without editing the test suite: int.div_rounded(int, n) with n > 18 (known finding D4b, 27 failing obligations in the 9 int/int impls). Every other obligation is discharged for all inputs; a new failing obligation is reported as a violation.',
         'assumptions': [
             'R5: thread default rounding mode read once per call (uninterpreted function of the thread state)',
-            'the 256-bit paths enter with their interface contracts (units/wide_iface.py); their bodies are the subject of C16',
+            'the 256-bit paths enter as stubs with the contracts proved on their bodies in unit wide (part of this check)',
             'quantize: the generic blanket impl is verified once for all T, Q against the trait-level contracts of DivRounded and Mul (result == div_rounded(q, 0) * q); the instance lemma lemma_quantize_decimal turns that into result == k*q with k = x/q rounded once for Decimal/Decimal; the integer instances follow from the same generic contract but have no separate instance lemma',
         ],
     },
@@ -174,6 +175,16 @@ PROPS = {
             'finite f outside the i128 coefficient range is read literally: -2^127 (coefficient i128::MIN) is converted, see DESIGN.md findings F1',
         ],
     },
+    'C16': {
+        'units': ['core_kernel', 'wide', 'mul', 'div_kernel'],
+        'title': 'Results stay correct when intermediates exceed 128 bits',
+        'design_ref': 'DESIGN.md section 7 (C16)',
+        'level_text': 'All eleven wide-arithmetic functions of fpdec-core are verified with their REAL bodies (no contract assumed): 128x128->256 multiplication, 256/64 and 256/128 division including the Knuth-D specialisation without add-back (loop invariants over four spec predicates), the sign fix-ups (result == mathematical floor quotient / remainder, None iff the magnitude quotient exceeds i128::MAX) and the two rounded entry points (Some(v) with v the exact quotient rounded once, None only if v is not a valid coefficient); the callers checked_mul_rounded / checked_div_rounded are verified against these contracts in units mul / div_kernel.',
+        'assumptions': [
+            'wrapping_mul/add/sub are specified by vstd; shifts and masks by bit_vector lemmas (proved)',
+            'None-side: at the single value v == i128::MIN (outside Decimal::MIN..=MAX) either answer is accepted; for every valid coefficient the result is Some(v)',
+        ],
+    },
     'C17': {
         'units': ['core_kernel', 'add_sub', 'checked_add_sub', 'mul', 'checked_mul', 'div_kernel', 'div_rounded', 'div',
                   'checked_div', 'rem', 'checked_rem', 'cmp'],
@@ -201,7 +212,7 @@ PROPS = {
     'C20': {
         'units': ['core_kernel', 'round', 'add_sub', 'checked_add_sub', 'mul', 'checked_mul', 'div_kernel', 'div_rounded',
                   'div', 'checked_div', 'rem', 'checked_rem', 'cmp', 'unops', 'magnitude', 'conv_int_total', 'from_float',
-                  'into_float', 'format', 'parser', 'ratio'],
+                  'into_float', 'format', 'parser', 'ratio', 'wide'],
         'unit_modes': {'*': ('D',), 'unops': ('F', 'D'), 'core_kernel': ('F', 'D')},
         'title': 'Results do not depend on the build profile; overflow is never silent',
         'design_ref': 'DESIGN.md section 7 (C20)',
